@@ -6,6 +6,7 @@
 From Verif Require Import Css.Sel Css.SelSpec Css.SelWitness Css.SelProofs.
 From Verif Require Import Css.SelParse Css.SelParseProofs Css.SelParseNormal Css.SelPrint Css.SelRoundtrip Css.SelRoundtripProofs.
 From Verif Require Import Css.SelProofsMore.
+From Verif Require Import Css.SelMore.
 From Verif Require Import Css.SelRoundtripGeneral Css.SelRoundtripGeneral2 Css.SelRoundtripGeneral3 Css.SelRoundtripGeneral4 Css.SelRoundtripGeneral5 Css.SelRoundtripGeneral6.
 From Coq Require Import ZArith NArith List Lia.
 Import ListNotations.
@@ -228,3 +229,28 @@ Example C05_compound_roundtrip_ex :
 Proof.
   intros c s. apply C05_parse_print_roundtrip_compound with (r := [32;62;32;121]%N); reflexivity || (cbn [skipn]; lia).
 Qed.
+
+(* ---- final round: algebra of Specificity.Add (specificity.go:21) and compounds (selector.go:446) ---- *)
+Theorem C05_specificity_add_monoid :
+  (forall x y, spec_add x y = spec_add y x) /\
+  (forall x y z, spec_add (spec_add x y) z = spec_add x (spec_add y z)) /\
+  (forall x, spec_add spec_zero x = x) /\ (forall x, spec_add x spec_zero = x).
+Proof. exact (conj spec_add_comm (conj spec_add_assoc (conj spec_add_zero_l spec_add_zero_r))). Qed.
+Print Assumptions C05_specificity_add_monoid.
+
+(* adding the same weight to both sides never changes the outcome of Less *)
+Theorem C05_specificity_less_add_invariant : forall x y z,
+  spec_less (spec_add x z) (spec_add y z) = spec_less x y.
+Proof. exact spec_less_add_r. Qed.
+Print Assumptions C05_specificity_less_add_invariant.
+
+(* the specificity of a compound is the sum of the specificities of its parts *)
+Theorem C05_compound_specificity_app : forall l1 l2,
+  specificity (SCompound (l1 ++ l2) []) = spec_add (specificity (SCompound l1 [])) (specificity (SCompound l2 [])).
+Proof. exact compound_specificity_app. Qed.
+Print Assumptions C05_compound_specificity_app.
+
+Theorem C05_compound_specificity_cons : forall s l,
+  specificity (SCompound (s :: l) []) = spec_add (specificity s) (specificity (SCompound l [])).
+Proof. exact compound_specificity_cons. Qed.
+Print Assumptions C05_compound_specificity_cons.
